@@ -327,6 +327,27 @@ pub fn mode_is_block_device(mode: u32) -> bool {
     mode & S_IFMT == S_IFBLK
 }
 
+/// The file type stored in a mode taken from an archive entry, if the entry carries one
+/// (many archivers store the permission bits only).
+pub fn mode_file_type(mode: u32) -> Option<u32> {
+    match mode & S_IFMT {
+        0 => None,
+        file_type => Some(file_type),
+    }
+}
+
+pub fn mode_type_is_file(file_type: u32) -> bool {
+    file_type == S_IFREG
+}
+
+pub fn mode_type_is_directory(file_type: u32) -> bool {
+    file_type == S_IFDIR
+}
+
+pub fn mode_type_is_link(file_type: u32) -> bool {
+    file_type == S_IFLNK
+}
+
 #[cfg(unix)]
 pub fn mode_is_directory(mode: u32) -> bool {
     mode & S_IFMT == S_IFDIR
@@ -349,6 +370,7 @@ pub fn mode_is_socket(mode: u32) -> bool {
 }
 
 const S_IFMT: u32 = 0o170000;
+const S_IFREG: u32 = 0o100000;
 
 const S_IRUSR: u32 = 0o400;
 const S_IWUSR: u32 = 0o200;
